@@ -21,7 +21,8 @@ GREEDY = [SA + "sorting_algorithm"]
 RRM = "acnportal.algorithms.sorted_algorithms.RoundRobin."
 RROBIN = [RRM + "round_robin"]
 PREP = "acnportal.algorithms.preprocessing."
-PREPROC = [PREP + f for f in ("remove_finished_sessions", "enforce_pilot_limit", "reconcile_max_and_min", "expand_max_min_rates", "apply_upper_bound_estimate")] \
+PREPROC = [PREP + f for f in ("remove_finished_sessions", "enforce_pilot_limit", "reconcile_max_and_min", "expand_max_min_rates", "apply_upper_bound_estimate",
+                              "apply_minimum_charging_rate")] \
           + ["acnportal.algorithms.utils.remaining_amp_periods", "acnportal.algorithms.utils.infrastructure_constraints_feasible"]
 SIM = "acnportal.acnsim.simulator.Simulator."
 AE = "acnportal.acnsim.events.acndata_events."
@@ -304,7 +305,10 @@ PLAN = {
              "every increment (an infeasible trial is reverted); every session sits at the level its index points to; the result gives each session 0 or a "
              "pilot within those bounds, finite-rate stations an advertised level or 0, other stations 0. (3) "
              "preprocessing: remove_finished_sessions (ghost index maps), enforce_pilot_limit, reconcile_max_and_min, apply_upper_bound_estimate (bound looked "
-             "up by SESSION id), expand_max_min_rates, remaining_amp_periods. (4) THE COMPOSITION SortedSchedulingAlgo.schedule for the plain greedy "
+             "up by SESSION id), expand_max_min_rates, remaining_amp_periods; apply_minimum_charging_rate (uninterrupted charging; loop invariant + exit clauses): "
+             "every session is either GRANTED its station's minimum pilot (capped by the override) as first lower bound - an existing larger lower bound is kept, "
+             "the first upper bound is raised to it if it was smaller, the granted pilot does not exceed the remaining demand in amp-periods - or SWITCHED OFF "
+             "(both first bounds 0); the vector of granted minimum pilots is accepted by the algorithm-side feasibility check (or is all zeros). (4) THE COMPOSITION SortedSchedulingAlgo.schedule for the plain greedy "
              "configuration (no estimator, no uninterrupted charging) AND RoundRobin.schedule for the plain round-robin configuration: "
              "interface.infrastructure_info -> run_preprocessing -> sorting_algorithm / round_robin -> "
              "format_array_schedule, every callee precondition discharged at its call site; postcondition: exactly one pilot for every registered station; "
